@@ -70,15 +70,19 @@ type IovLen = i32;
 #[cfg(not(target_env = "gnu"))]
 type MsgControlLen = socklen_t;
 
-unsafe fn new_sockaddr_un(path: *const c_char) -> (sockaddr_un, usize) {
+unsafe fn new_sockaddr_un(path: *const c_char) -> Result<(sockaddr_un, usize), UnixError> {
     let mut sockaddr: sockaddr_un = mem::zeroed();
+    // A path that does not fit would be silently truncated, i.e. name a different socket.
+    if libc::strlen(path) >= sockaddr.sun_path.len() {
+        return Err(UnixError::Errno(libc::ENAMETOOLONG));
+    }
     libc::strncpy(
         sockaddr.sun_path.as_mut_ptr(),
         path,
         sockaddr.sun_path.len() - 1,
     );
     sockaddr.sun_family = libc::AF_UNIX as sa_family_t;
-    (sockaddr, mem::size_of::<sockaddr_un>())
+    Ok((sockaddr, mem::size_of::<sockaddr_un>()))
 }
 
 lazy_static! {
@@ -462,7 +466,7 @@ impl OsIpcSender {
     pub fn connect(name: String) -> Result<OsIpcSender, UnixError> {
         let name = CString::new(name).unwrap();
         unsafe {
-            let (sockaddr, len) = new_sockaddr_un(name.as_ptr());
+            let (sockaddr, len) = new_sockaddr_un(name.as_ptr())?;
             let fd = libc::socket(libc::AF_UNIX, SOCK_SEQPACKET | SOCK_FLAGS, 0);
             if fd < 0 {
                 return Err(UnixError::last());
@@ -696,7 +700,7 @@ impl OsIpcOneShotServer {
             let path_string = socket_path.to_str().unwrap();
 
             let path_c_string = CString::new(path_string).unwrap();
-            let (sockaddr, len) = new_sockaddr_un(path_c_string.as_ptr());
+            let (sockaddr, len) = new_sockaddr_un(path_c_string.as_ptr())?;
             let fd = libc::socket(libc::AF_UNIX, SOCK_SEQPACKET | SOCK_FLAGS, 0);
             if fd < 0 {
                 return Err(UnixError::last());
